@@ -9,12 +9,14 @@ import (
 	"encoding/base64"
 	"fmt"
 	"io"
-	"sort"
+	"net"
+	"os"
+	"path/filepath"
 	"strings"
 	"sync"
 	"time"
 
-	"cedarverif/harness/internal/bufpipe"
+	"cedarverif/harness/internal/refcodec"
 
 	"github.com/PelicanPlatform/classad/classad"
 	"github.com/bbockelm/cedar/commands"
@@ -108,7 +110,7 @@ func keyAttr(kind string) (string, *ecdh.PrivateKey) {
 	return "", nil
 }
 
-const bitClaimToBe, bitPassword = 2, 512
+const bitClaimToBe, bitPassword, bitFS = 2, 512, 4
 
 /* ------------------------------------------------------------ scripted server (client under test) */
 
@@ -128,6 +130,7 @@ type srvScript struct {
 	ok        []string
 	hasKey    *int64
 	post      *postScript
+	fsPath    string // what a scripted FS exchange names (always refused by the client)
 }
 
 type peerLog struct {
@@ -147,7 +150,7 @@ func contains(l []string, s string) bool {
 	return false
 }
 
-func runScriptedServer(ctx context.Context, conn *bufpipe.Conn, sc srvScript, lg *peerLog) {
+func runScriptedServer(ctx context.Context, conn net.Conn, sc srvScript, lg *peerLog) {
 	defer conn.Close()
 	st := stream.NewStream(conn)
 	in := message.NewMessageFromStream(st)
@@ -230,6 +233,26 @@ func runScriptedServer(ctx context.Context, conn *bufpipe.Conn, sc srvScript, lg
 					authed = true
 					break
 				}
+			} else if r == bitFS {
+				// FS, server side, FAILING: [path] -> [client result] -> [server result -1]. The path is
+				// one the client must refuse (empty, or not under the FS base directory), so nothing is
+				// created anywhere; the exchange runs to its end and fails, and the client retries with
+				// the method removed from its mask.
+				pm := message.NewMessageForStream(st)
+				if pm.PutString(ctx, sc.fsPath) != nil || pm.FinishMessage(ctx) != nil {
+					return
+				}
+				cr := message.NewMessageFromStream(st)
+				if _, err := cr.GetInt(ctx); err != nil {
+					return
+				}
+				vm := message.NewMessageForStream(st)
+				if vm.PutInt(ctx, -1) != nil || vm.FinishMessage(ctx) != nil {
+					return
+				}
+				lg.mu.Lock()
+				lg.ranAny = append(lg.ranAny, "FS")
+				lg.mu.Unlock()
 			}
 		}
 		if !authed {
@@ -288,14 +311,19 @@ func runScriptedServer(ctx context.Context, conn *bufpipe.Conn, sc srvScript, lg
 type clientCfg struct {
 	auth, enc, integ string
 	methods, ciphers []string
+	tweak            func(*security.SecurityConfig) // credentials (token file, trust domain ...)
 }
 
 func (c clientCfg) secConfig(cache *security.SessionCache) *security.SecurityConfig {
-	return &security.SecurityConfig{
+	conf := &security.SecurityConfig{
 		AuthMethods: toMethods(c.methods), Authentication: security.SecurityLevel(c.auth),
 		CryptoMethods: toCiphers(c.ciphers), Encryption: security.SecurityLevel(c.enc), Integrity: security.SecurityLevel(c.integ),
 		Command: 60007, SessionCache: cache, PeerName: "",
 	}
+	if c.tweak != nil {
+		c.tweak(conf)
+	}
+	return conf
 }
 
 func outcomeLine(neg *security.SecurityNegotiation, st *stream.Stream, ranOK []string) string {
@@ -312,8 +340,8 @@ func outcomeLine(neg *security.SecurityNegotiation, st *stream.Stream, ranOK []s
 
 // runClientCase: real ClientHandshake against a scripted server.
 func runClientCase(c *Ctx, cfg clientCfg, sc srvScript) Case {
-	ca, cb := bufpipe.Pair("10.0.0.1:1111", "10.0.0.2:9618")
-	ctx, cancel := context.WithTimeout(context.Background(), 400*time.Millisecond)
+	ca, cb, tap := tappedPair("10.0.0.1:1111", "10.0.0.2:9618", "")
+	ctx, cancel := context.WithTimeout(context.Background(), hsScriptTimeout)
 	defer cancel()
 	lg := &peerLog{}
 	done := make(chan struct{})
@@ -386,6 +414,7 @@ func runClientCase(c *Ctx, cfg clientCfg, sc srvScript) Case {
 		if st.IsEncrypted() && skey != nil && !bytes.Equal(neg.GetSharedSecret(), skey) {
 			viol("key-mismatch", "client and server derived different keys", "same key", "different")
 		}
+		trafficAfterHandshake(ctx, st, tap, 0, neg.GetSharedSecret(), cfg.enc == "REQUIRED" || cfg.integ == "REQUIRED", canaryC2S, viol)
 	}
 	ca.Close()
 	<-done
@@ -409,6 +438,7 @@ type cliScript struct {
 type serverCfg struct {
 	auth, enc, integ string
 	methods, ciphers []string
+	tweak            func(*security.SecurityConfig)
 }
 
 type cliObs struct {
@@ -416,11 +446,12 @@ type cliObs struct {
 	denied           bool
 	advAuth, advEnc  string
 	ranOK            []string
+	ranAny           []string
 	postReadable     bool
 	key              []byte
 }
 
-func runScriptedClient(ctx context.Context, conn *bufpipe.Conn, sc cliScript, ob *cliObs, mu *sync.Mutex) {
+func runScriptedClient(ctx context.Context, conn net.Conn, sc cliScript, ob *cliObs, mu *sync.Mutex) {
 	defer conn.Close()
 	var once sync.Once
 	settle := func() { once.Do(func() { close(ob.settled) }) }
@@ -507,6 +538,31 @@ func runScriptedClient(ctx context.Context, conn *bufpipe.Conn, sc cliScript, ob
 					authed = true
 					break
 				}
+			} else if r == bitFS {
+				// FS, client side, FAILING: [path] -> [result -1] -> [server result]
+				pm := message.NewMessageFromStream(st)
+				if _, err := pm.GetString(ctx); err != nil {
+					return
+				}
+				cr := message.NewMessageForStream(st)
+				if cr.PutInt(ctx, -1) != nil || cr.FinishMessage(ctx) != nil {
+					return
+				}
+				vm := message.NewMessageFromStream(st)
+				v, err := vm.GetInt(ctx)
+				if err != nil {
+					return
+				}
+				mu.Lock()
+				ob.ranAny = append(ob.ranAny, "FS")
+				if v == 0 {
+					ob.ranOK = append(ob.ranOK, "FS") // the server accepted an exchange the client declared failed
+					authed = true
+				}
+				mu.Unlock()
+				if authed {
+					break
+				}
 			}
 		}
 		if !authed && !gaveUp {
@@ -543,8 +599,8 @@ func runScriptedClient(ctx context.Context, conn *bufpipe.Conn, sc cliScript, ob
 }
 
 func runServerCase(c *Ctx, cfg serverCfg, sc cliScript) Case {
-	ca, cb := bufpipe.Pair("10.0.0.1:1111", "10.0.0.2:9618")
-	ctx, cancel := context.WithTimeout(context.Background(), 400*time.Millisecond)
+	ca, cb, tap := tappedPair("10.0.0.1:1111", "10.0.0.2:9618", "")
+	ctx, cancel := context.WithTimeout(context.Background(), hsScriptTimeout)
 	defer cancel()
 	ob := &cliObs{settled: make(chan struct{})}
 	var mu sync.Mutex
@@ -581,7 +637,7 @@ func runServerCase(c *Ctx, cfg serverCfg, sc cliScript) Case {
 	} else {
 		select {
 		case <-ob.settled:
-		case <-time.After(300 * time.Millisecond):
+		case <-time.After(3 * time.Second): // only reached when the scripted client is stuck, which no script is
 		}
 		mu.Lock()
 		ranOK := append([]string{}, ob.ranOK...)
@@ -613,6 +669,7 @@ func runServerCase(c *Ctx, cfg serverCfg, sc cliScript) Case {
 		if st.IsEncrypted() && ckey != nil && !bytes.Equal(neg.GetSharedSecret(), ckey) {
 			viol("key-mismatch", "client and server derived different keys", "same key", "different")
 		}
+		trafficAfterHandshake(ctx, st, tap, 1, neg.GetSharedSecret(), cfg.enc == "REQUIRED" || cfg.integ == "REQUIRED", canaryS2C, viol)
 		cb.Close()
 		<-done
 	}
@@ -637,7 +694,19 @@ func randMethodList(c *Ctx) []string {
 func sp(s string) *string { return &s }
 func ip(v int64) *int64   { return &v }
 
+// quietStdout: the library prints diagnostics of failing FS / TOKEN exchanges on stdout.
+func quietStdout() func() {
+	so := os.Stdout
+	dn, err := os.OpenFile(os.DevNull, os.O_WRONLY, 0)
+	if err != nil {
+		return func() {}
+	}
+	os.Stdout = dn
+	return func() { os.Stdout = so; dn.Close() }
+}
+
 func runHsAdv(c *Ctx) error {
+	defer quietStdout()()
 	c.Res.Rule = "both roles; every 4x4 local (authentication, encryption) policy plus integrity; method lists over {CLAIMTOBE, PASSWORD, NONE, BOGUS, TOKEN}; peers = the property's deviation catalogue (honest; Authentication/Encryption NO; ECDH key absent/undecodable; no common cipher; un-offered / multi-bit (also with an un-offered lowest bit) / zero / negative method bit; DENIED; clear post-auth ad on a keyed stream; sealed post-auth without agreement; missing or non-zero key message) crossed with each policy, plus random peers drawing every field independently; the scripted peer speaks raw CEDAR frames and records which exchanges completed; distinct by (config, script); non-trivial = peer deviates from honest in ≥1 field"
 	var cases []Case
 	honestSrv := func(cfg clientCfg) srvScript {
@@ -718,6 +787,45 @@ func runHsAdv(c *Ctx) error {
 			}
 		}
 	}
+	// ---- two methods that can both be picked: the FIRST common one runs on the wire and FAILS, a
+	// later one completes. What the endpoint reports must be the one that completed. ----
+	fsDevs := []dev{
+		{"fs-fails-then-claim", func(s *srvScript) { s.methods = []string{"FS", "CLAIMTOBE"}; s.replies = []int64{bitFS, bitClaimToBe} }},
+		{"fs-fails-badpath-then-claim", func(s *srvScript) {
+			s.methods = []string{"FS", "CLAIMTOBE"}
+			s.replies = []int64{bitFS, bitClaimToBe}
+			s.fsPath = "/etc/FS_123456"
+		}},
+		{"claim-then-nothing-else", func(s *srvScript) { s.methods = []string{"FS", "CLAIMTOBE"} }},
+		{"fs-fails-only", func(s *srvScript) { s.methods = []string{"FS", "CLAIMTOBE"}; s.replies = []int64{bitFS} }},
+		{"fs-fails-claim-rejected", func(s *srvScript) { s.methods = []string{"FS", "CLAIMTOBE"}; s.replies = []int64{bitFS, bitClaimToBe}; s.ok = nil }},
+		{"fs-twice", func(s *srvScript) { s.methods = []string{"FS", "CLAIMTOBE"}; s.replies = []int64{bitFS, bitFS, bitClaimToBe} }},
+		{"fs-fails-then-claim-auth-NO-enc", func(s *srvScript) {
+			s.methods = []string{"CLAIMTOBE", "FS"}
+			s.replies = []int64{bitFS, bitClaimToBe}
+			s.enc = "NO"
+			s.key = "absent"
+			s.post.sealed = false
+		}},
+	}
+	for _, au := range levels {
+		for _, en := range levels {
+			for _, ms := range [][]string{{"FS", "CLAIMTOBE"}, {"CLAIMTOBE", "FS"}} {
+				cfg := clientCfg{auth: au, enc: en, integ: "OPTIONAL", methods: ms, ciphers: []string{"AES"}}
+				for _, d := range fsDevs {
+					sc := honestSrv(cfg)
+					d.f(&sc)
+					cs := runClientCase(c, cfg, sc)
+					cases = append(cases, cs)
+					c.Distinct(cs.Ops[0], true)
+					c.Count("client-dev:" + d.name)
+					if strings.Contains(cs.Real[0], "method=CLAIMTOBE") && len(sc.replies) > 1 {
+						c.Count("client:first-method-failed-later-completed")
+					}
+				}
+			}
+		}
+	}
 	// server role: catalogue of client deviations
 	type cdev struct {
 		name string
@@ -769,6 +877,67 @@ func runHsAdv(c *Ctx) error {
 			}
 		}
 	}
+	// server role, two methods: the server's first method in the mask runs and fails, the next completes
+	fsCdevs := []cdev{
+		{"fs-fails-then-claim", func(s *cliScript) { s.methods = []string{"FS", "CLAIMTOBE"}; s.masks = []int64{bitFS | bitClaimToBe, bitClaimToBe} }},
+		{"fs-only-mask-then-claim", func(s *cliScript) { s.methods = []string{"FS", "CLAIMTOBE"}; s.masks = []int64{bitFS, bitClaimToBe} }},
+		{"claim-only-mask", func(s *cliScript) { s.methods = []string{"CLAIMTOBE", "FS"}; s.masks = []int64{bitClaimToBe} }},
+		{"fs-fails-then-giveup", func(s *cliScript) { s.methods = []string{"FS", "CLAIMTOBE"}; s.masks = []int64{bitFS | bitClaimToBe, 0} }},
+		{"fs-fails-claim-fails", func(s *cliScript) { s.methods = []string{"FS", "CLAIMTOBE"}; s.masks = []int64{bitFS | bitClaimToBe, bitClaimToBe, 0}; s.ok = nil }},
+		{"fs-twice-then-claim", func(s *cliScript) { s.methods = []string{"FS", "CLAIMTOBE"}; s.masks = []int64{bitFS | bitClaimToBe, bitFS | bitClaimToBe, bitClaimToBe} }},
+	}
+	for _, au := range levels {
+		for _, en := range levels {
+			for _, ms := range [][]string{{"FS", "CLAIMTOBE"}, {"CLAIMTOBE", "FS"}} {
+				cfg := serverCfg{auth: au, enc: en, integ: "OPTIONAL", methods: ms, ciphers: []string{"AES"}}
+				for _, d := range fsCdevs {
+					sc := honestCli()
+					d.f(&sc)
+					cs := runServerCase(c, cfg, sc)
+					cases = append(cases, cs)
+					c.Distinct(cs.Ops[0], true)
+					c.Count("server-dev:" + d.name)
+					if strings.Contains(cs.Real[0], "method=CLAIMTOBE") && ms[0] == "FS" && sc.masks[0]&bitFS != 0 {
+						c.Count("server:first-method-failed-later-completed")
+					}
+				}
+			}
+		}
+	}
+	// two real endpoints, two methods that can run (first one failing on the wire, or not): the
+	// reported method on BOTH ends against the exchange that completed on the wire
+	{
+		mat, cleanup, err := hsPrepare(c)
+		if err != nil {
+			return err
+		}
+		fsBefore := stallFSDirs()
+		k := 0
+		for _, sh := range twoMethodShapes(mat) {
+			for _, ca := range levels {
+				for _, sa := range levels {
+					for _, ce := range levels {
+						k++
+						se := levels[(k+int(c.Seed))%4]
+						v := runPairCell(sh, ca, sa, ce, se, 60007)
+						cases = append(cases, Case{Label: "pair " + sh.name, Ops: []string{v.op}, Real: []string{v.real}})
+						c.Distinct(v.op, true)
+						c.Count("pair:" + sh.name)
+						if len(v.run.wire.ranAny) > 1 && len(v.run.wire.ranOK) > 0 {
+							c.Count("pair:first-method-failed-later-completed")
+						}
+						reportedIsReal(c, "C03", "C03:pair:", sh, ca, sa, ce, se, v)
+					}
+				}
+			}
+		}
+		for d := range stallFSDirs() {
+			if !fsBefore[d] {
+				_ = os.Remove(d)
+			}
+		}
+		cleanup()
+	}
 	// random peers
 	n := c.Pick(400, 8000)
 	for i := 0; i < n; i++ {
@@ -816,6 +985,9 @@ func runHsAdv(c *Ctx) error {
 		if strings.HasPrefix(s, "err ") {
 			return "err"
 		}
+		for _, e := range []string{"err refused", "err eof", "err malformed", "err authFail"} {
+			s = strings.ReplaceAll(s, e, "err x")
+		}
 		return s
 	}
 	return diffBatch(c, "hs", cases, norm)
@@ -829,9 +1001,123 @@ type honestObs struct {
 	st  *stream.Stream
 }
 
-func runHonestPair(cc clientCfg, sc serverCfg, cmd int) (cl, sv honestObs, deniedSeen bool, msgOK string) {
-	ca, cb := bufpipe.Pair("10.0.0.1:1111", "10.0.0.2:9618")
-	ctx, cancel := context.WithTimeout(context.Background(), 600*time.Millisecond)
+// honest-path handshakes are bounded generously: the bound only ends a run that has already failed
+const hsHonestTimeout = 8 * time.Second
+
+// scripted peers: the bound only matters when a run has already gone wrong (every scripted peer
+// closes its end when its script is over, so no case waits for the bound)
+const hsScriptTimeout = 6 * time.Second
+
+type pairRun struct {
+	cl, sv  honestObs
+	wire    wireAuth // what the cleartext authentication loop on the wire shows
+	denied  bool     // the server's last cleartext message is an ad carrying a denial return code
+	msgOK   string
+	leak    string // non-empty: how application data was exposed on a stream that should be protected
+	sealChk string // "-" not keyed; "ok": every protected frame opened under the session key with the documented AAD and under no other key
+}
+
+const canaryC2S, canaryS2C = "CANARY-c2s-7f3a91e4", "CANARY-s2c-b26d08c5"
+
+// openProtected re-opens, with the independent codec, everything both ends wrote under the key:
+// the post-authentication ad (first protected frame server->client) and the application messages.
+// clear[d] = bytes of direction d written before its first protected frame.
+func openProtected(tp *wireTap, key []byte, clearLen [2]int, dirs ...int) string {
+	if len(dirs) == 0 {
+		dirs = []int{0, 1}
+	}
+	raw := [2][]byte{tp.written(0), tp.written(1)}
+	dg := func(d int) [32]byte { return refcodec.Digest(raw[d][:clearLen[d]], clearLen[d] > 0) }
+	bad := append([]byte{}, key...)
+	bad[len(bad)-1] ^= 1
+	for _, d := range dirs {
+		dir, err := refcodec.NewDir(key, dg(d), dg(1-d))
+		if err != nil {
+			return "key unusable: " + err.Error()
+		}
+		wrong, _ := refcodec.NewDir(bad, dg(d), dg(1-d))
+		frames, rest := refcodec.ParseFrames(raw[d][clearLen[d]:])
+		if len(rest) != 0 || len(frames) == 0 {
+			return fmt.Sprintf("direction %d: no complete protected frame", d)
+		}
+		for i, f := range frames {
+			if i == 0 {
+				if _, err := wrong.Open(f); err == nil {
+					return fmt.Sprintf("direction %d: first protected frame opens under a different key", d)
+				}
+			}
+			if _, err := dir.Open(f); err != nil {
+				return fmt.Sprintf("direction %d frame %d: does not open under the session key with the transcript digests", d, i)
+			}
+		}
+	}
+	return "ok"
+}
+
+// clearLens: where each direction's cleartext ends at the moment a full handshake has returned.
+// The client sends nothing under the key during a full handshake; the server's last handshake
+// message (the post-authentication ad) is its first protected one when a key was installed.
+func clearLens(tap *wireTap, keyed bool) (cl [2]int) {
+	ms := tap.messages()
+	cl[0] = len(tap.written(0))
+	lastSrv := -1
+	for k := range ms {
+		if ms[k].dir == 1 {
+			lastSrv = k
+		}
+	}
+	for k := range ms {
+		if ms[k].dir == 1 && (k != lastSrv || !keyed) {
+			for _, f := range ms[k].frames {
+				cl[1] += 5 + len(f.Body)
+			}
+		}
+	}
+	return
+}
+
+// trafficAfterHandshake: the endpoint under test (writing direction dir) sends one application
+// message carrying a canary right after its handshake returned success. On the RAW bytes it wrote:
+// the canary must not be readable when the stream claims protection or the endpoint's own policy
+// makes encryption/integrity REQUIRED, and every protected frame must open under the session key
+// with the transcript digests as associated data -- and not under another key.
+func trafficAfterHandshake(ctx context.Context, st *stream.Stream, tap *wireTap, dir int, key []byte, required bool, canary string, viol func(key, what, exp, obs string)) {
+	keyed := st.IsEncrypted()
+	cl := clearLens(tap, keyed)
+	before := len(tap.written(dir))
+	if err := st.SendMessage(ctx, []byte(canary)); err != nil {
+		return // the peer is gone; nothing was sent that could be looked at
+	}
+	sent := tap.written(dir)[before:]
+	if bytes.Contains(sent, []byte(canary)) && (keyed || required) {
+		why := "the stream reports IsEncrypted()"
+		if !keyed {
+			why = "its policy makes encryption/integrity REQUIRED"
+		}
+		viol("traffic-in-clear", "application data sent right after a successful handshake is readable on the wire although "+why, "canary absent from the raw bytes", "canary present in the bytes written")
+		return
+	}
+	if keyed {
+		if len(key) != 32 {
+			viol("traffic-not-sealed", "the stream is keyed but the handshake reports no 32-byte session key", "a session key", fmt.Sprintf("%d bytes", len(key)))
+			return
+		}
+		dirs := []int{1}
+		if dir == 0 {
+			dirs = []int{0, 1}
+		}
+		if r := openProtected(tap, key, cl, dirs...); r != "ok" {
+			viol("traffic-not-sealed", "traffic after the handshake is not AES-GCM protected under the session key as documented", "every frame opens under the session key (and the first one under no other key)", r)
+		}
+	}
+}
+
+func runHonestPairX(cc clientCfg, sc serverCfg, cmd int, clientSees string, bound time.Duration) (r pairRun) {
+	ca, cb, tap := tappedPair("10.0.0.1:1111", "10.0.0.2:9618", clientSees)
+	if bound == 0 {
+		bound = hsHonestTimeout
+	}
+	ctx, cancel := context.WithTimeout(context.Background(), bound)
 	defer cancel()
 	cst, sst := stream.NewStream(ca), stream.NewStream(cb)
 	sst.SetPeerAddr("10.0.0.1:1111")
@@ -841,34 +1127,55 @@ func runHonestPair(cc clientCfg, sc serverCfg, cmd int) (cl, sv honestObs, denie
 		defer wg.Done()
 		conf := &security.SecurityConfig{AuthMethods: toMethods(sc.methods), Authentication: security.SecurityLevel(sc.auth),
 			CryptoMethods: toCiphers(sc.ciphers), Encryption: security.SecurityLevel(sc.enc), Integrity: security.SecurityLevel(sc.integ)}
+		if sc.tweak != nil {
+			sc.tweak(conf)
+		}
 		a := security.NewAuthenticator(conf, sst)
-		sv.neg, sv.err = a.ServerHandshake(ctx)
-		sv.st = sst
-		if sv.err != nil {
+		r.sv.neg, r.sv.err = a.ServerHandshake(ctx)
+		r.sv.st = sst
+		if r.sv.err != nil {
 			cb.Close()
 		}
 	}()
 	conf := cc.secConfig(security.NewSessionCache())
 	conf.Command = cmd
 	a := security.NewAuthenticator(conf, cst)
-	cl.neg, cl.err = a.ClientHandshake(ctx)
-	cl.st = cst
-	if cl.err != nil {
-		deniedSeen = strings.Contains(cl.err.Error(), "rejected by server")
+	r.cl.neg, r.cl.err = a.ClientHandshake(ctx)
+	r.cl.st = cst
+	if r.cl.err != nil {
 		ca.Close()
 	}
 	wg.Wait()
-	msgOK = "-"
-	if cl.err == nil && sv.err == nil {
+	ms := tap.messages()
+	r.wire = readAuthLoop(ms, append(append([]string{}, cc.methods...), sc.methods...))
+	r.denied = r.cl.err != nil && wireDenied(ms)
+	r.msgOK, r.sealChk = "-", "-"
+	if r.cl.err == nil && r.sv.err == nil {
+		// where each direction's cleartext ends: the client sends nothing under the key during a full
+		// handshake; the server's last handshake message (the post-authentication ad) is its first
+		// protected one
+		clearLen := clearLens(tap, cst.IsEncrypted() || sst.IsEncrypted())
 		// immediately exchange a message each way
-		e1 := cst.SendMessage(ctx, []byte("c2s"))
+		e1 := cst.SendMessage(ctx, []byte(canaryC2S))
 		m1, e2 := sst.ReceiveCompleteMessage(ctx)
-		e3 := sst.SendMessage(ctx, []byte("s2c"))
+		e3 := sst.SendMessage(ctx, []byte(canaryS2C))
 		m2, e4 := cst.ReceiveCompleteMessage(ctx)
-		if e1 == nil && e2 == nil && e3 == nil && e4 == nil && string(m1) == "c2s" && string(m2) == "s2c" {
-			msgOK = "1"
+		if e1 == nil && e2 == nil && e3 == nil && e4 == nil && string(m1) == canaryC2S && string(m2) == canaryS2C {
+			r.msgOK = "1"
 		} else {
-			msgOK = "0"
+			r.msgOK = "0"
+		}
+		if cst.IsEncrypted() || sst.IsEncrypted() {
+			if bytes.Contains(tap.written(0), []byte(canaryC2S)) {
+				r.leak = "client->server application data in clear on the wire"
+			} else if bytes.Contains(tap.written(1), []byte(canaryS2C)) {
+				r.leak = "server->client application data in clear on the wire"
+			}
+			if key := r.sv.neg.GetSharedSecret(); len(key) == 32 && r.msgOK == "1" {
+				r.sealChk = openProtected(tap, key, clearLen)
+			} else {
+				r.sealChk = "no 32-byte session key reported"
+			}
 		}
 	}
 	ca.Close()
@@ -876,69 +1183,266 @@ func runHonestPair(cc clientCfg, sc serverCfg, cmd int) (cl, sv honestObs, denie
 	return
 }
 
+// hsMaterial: credentials for the shapes in which more than one method can actually run.
+type hsMaterial struct {
+	*stallMaterial
+	badTokenFile string // same header and claims as the good token, signed with a key the server does not hold
+}
+
+func hsPrepare(c *Ctx) (*hsMaterial, func(), error) {
+	work, err := os.MkdirTemp(fsWorkDir(c), "hs-")
+	if err != nil {
+		return nil, nil, err
+	}
+	sm, err := stallPrepare(work)
+	if err != nil {
+		os.RemoveAll(work)
+		return nil, nil, err
+	}
+	m := &hsMaterial{stallMaterial: sm, badTokenFile: filepath.Join(work, "bad.jwt")}
+	good, err := os.ReadFile(sm.tokenFile)
+	if err == nil {
+		parts := strings.Split(strings.TrimSpace(string(good)), ".")
+		if len(parts) == 3 {
+			h := sha256.Sum256([]byte("not the pool key" + parts[0] + parts[1]))
+			err = os.WriteFile(m.badTokenFile, []byte(parts[0]+"."+parts[1]+"."+base64.RawURLEncoding.EncodeToString(h[:])+"\n"), 0o600)
+		} else {
+			err = fmt.Errorf("unexpected token shape")
+		}
+	}
+	if err != nil {
+		os.RemoveAll(work)
+		return nil, nil, err
+	}
+	return m, func() { os.RemoveAll(work) }, nil
+}
+
+func (m *hsMaterial) cliToken(file string) func(*security.SecurityConfig) {
+	return func(conf *security.SecurityConfig) {
+		conf.TokenFile, conf.TrustDomain, conf.IssuerKeys = file, "example.com", []string{"POOL"}
+	}
+}
+
+func (m *hsMaterial) srvToken() func(*security.SecurityConfig) {
+	return func(conf *security.SecurityConfig) {
+		conf.TrustDomain, conf.TokenPoolSigningKeyFile, conf.TokenSigningKeyDir = "example.com", m.poolKeyFile, m.keyDir
+	}
+}
+
+// pairShape: one method/cipher/credential shape for two real endpoints.
+type pairShape struct {
+	name     string
+	cm, sm   []string
+	cc, scs  []string
+	ci, si   string   // integrity levels ("" = OPTIONAL)
+	ok       []string // methods whose exchange succeeds between these two parties
+	bound    time.Duration // 0 = hsHonestTimeout
+	nat      bool     // the client reaches the server through an address translator (FS then fails: the path names another endpoint)
+	ct, st   func(*security.SecurityConfig)
+}
+
+func (sh pairShape) integ() (string, string) {
+	ci, si := sh.ci, sh.si
+	if ci == "" {
+		ci = "OPTIONAL"
+	}
+	if si == "" {
+		si = "OPTIONAL"
+	}
+	return ci, si
+}
+
+func twoMethodShapes(m *hsMaterial) []pairShape {
+	aes := []string{"AES"}
+	return []pairShape{
+		{name: "fs-fails-claim", cm: []string{"FS", "CLAIMTOBE"}, sm: []string{"FS", "CLAIMTOBE"}, cc: aes, scs: aes, ok: []string{"CLAIMTOBE"}, nat: true},
+		{name: "token-bad-claim", cm: []string{"TOKEN", "CLAIMTOBE"}, sm: []string{"TOKEN", "CLAIMTOBE"}, cc: aes, scs: aes, ok: []string{"CLAIMTOBE"}, ct: m.cliToken(m.badTokenFile), st: m.srvToken()},
+		{name: "token-good-first", cm: []string{"CLAIMTOBE", "TOKEN"}, sm: []string{"TOKEN", "CLAIMTOBE"}, cc: aes, scs: aes, ok: []string{"TOKEN", "CLAIMTOBE"}, ct: m.cliToken(m.tokenFile), st: m.srvToken()},
+		{name: "claim-before-token", cm: []string{"TOKEN", "CLAIMTOBE"}, sm: []string{"CLAIMTOBE", "TOKEN"}, cc: aes, scs: aes, ok: []string{"TOKEN", "CLAIMTOBE"}, ct: m.cliToken(m.tokenFile), st: m.srvToken()},
+	}
+}
+
+type pairVerdict struct {
+	op, real string
+	run      pairRun
+}
+
+// runPairCell runs one cell (levels x shape) and renders it for the model.
+func runPairCell(sh pairShape, ca, sa, ce, se string, cmd int) pairVerdict {
+	ci, si := sh.integ()
+	cc := clientCfg{auth: ca, enc: ce, integ: ci, methods: sh.cm, ciphers: sh.cc, tweak: sh.ct}
+	sc := serverCfg{auth: sa, enc: se, integ: si, methods: sh.sm, ciphers: sh.scs, tweak: sh.st}
+	sees := ""
+	if sh.nat {
+		sees = "192.0.2.77:9618"
+	}
+	r := runHonestPairX(cc, sc, cmd, sees, sh.bound)
+	op := fmt.Sprintf("honest cauth=%s cenc=%s cinteg=%s cmethods=%s cciphers=%s sauth=%s senc=%s sinteg=%s smethods=%s sciphers=%s ok=%s user=u",
+		ca, ce, ci, joinOrDash(sh.cm), joinOrDash(sh.cc), sa, se, si, joinOrDash(sh.sm), joinOrDash(sh.scs), joinOrDash(sh.ok))
+	ran := "?" // the authentication loop on the wire could not be followed
+	if r.wire.parsed {
+		shown := append([]string{}, r.wire.ranOK...)
+		for i, m := range shown {
+			// the wire shows the method bit; where the bit has two spellings use the one the server lists
+			for _, own := range sh.sm {
+				if own != m && canonMethod(own) == m {
+					shown[i] = own
+					break
+				}
+			}
+		}
+		ran = joinDash(shown)
+	}
+	side := func(o honestObs) string {
+		if o.err != nil {
+			return "err x"
+		}
+		m := "-"
+		if o.neg.Authentication {
+			m = string(o.neg.NegotiatedAuth)
+		}
+		return fmt.Sprintf("ok auth=%s enc=%s method=%s keyed=%s ran=%s", b01(o.neg.Authentication), b01(o.neg.Encryption), m, b01(o.st.IsEncrypted()), ran)
+	}
+	users := "-"
+	if r.cl.err == nil && r.sv.err == nil {
+		switch {
+		case r.cl.neg.User == r.sv.neg.User:
+			users = "same"
+		case r.sv.neg.User == "" && r.cl.neg.User == "unauthenticated@unmapped":
+			users = "anon"
+		default:
+			users = "differ"
+		}
+	}
+	real := fmt.Sprintf("client[%s] server[%s] denied=%s users=%s", side(r.cl), side(r.sv), b01(r.denied), users)
+	return pairVerdict{op: op, real: real, run: r}
+}
+
+// reportedIsReal: the C03 clauses on reported outcome, for both real endpoints of a successful
+// honest handshake, against what the wire shows.
+func reportedIsReal(c *Ctx, prop, keyPrefix string, sh pairShape, ca, sa, ce, se string, v pairVerdict) {
+	r := v.run
+	if r.cl.err != nil || r.sv.err != nil {
+		return
+	}
+	viol := func(key, what, exp, obs string) {
+		c.Violate(Violation{Property: prop, Key: keyPrefix + key, What: what, Ops: []string{v.op}, Expected: exp, Observed: obs})
+	}
+	if !r.wire.parsed {
+		return // rendered as ran=? : a correspondence mismatch, not a verdict on the property
+	}
+	ci, si := sh.integ()
+	for _, e := range []struct {
+		role              string
+		o                 honestObs
+		auth, enc, integ  string
+		own               []string
+	}{{"client", r.cl, ca, ce, ci, sh.cm}, {"server", r.sv, sa, se, si, sh.sm}} {
+		wireAuthd := len(r.wire.ranOK) > 0
+		if e.o.neg.Authentication != wireAuthd {
+			viol(e.role+":reported-auth", "reported authentication flag differs from what completed on the wire", fmt.Sprint(wireAuthd), fmt.Sprint(e.o.neg.Authentication))
+		} else if wireAuthd && canonMethod(string(e.o.neg.NegotiatedAuth)) != r.wire.ranOK[len(r.wire.ranOK)-1] {
+			viol(e.role+":reported-method", "the method the endpoint reports is not the one whose exchange completed on the wire (exchanges begun: "+joinDash(r.wire.ranAny)+")",
+				r.wire.ranOK[len(r.wire.ranOK)-1], string(e.o.neg.NegotiatedAuth))
+		}
+		if e.auth == "REQUIRED" && !(wireAuthd && containsCanon(e.own, r.wire.ranOK[len(r.wire.ranOK)-1])) {
+			viol(e.role+":required-auth-not-run", "success under authentication REQUIRED although no own-listed method completed on the wire", "an own-listed method completed", joinDash(r.wire.ranOK))
+		}
+		if e.o.neg.Encryption != e.o.st.IsEncrypted() {
+			viol(e.role+":reported-enc", "reported encryption flag differs from the stream's real state", fmt.Sprint(e.o.st.IsEncrypted()), fmt.Sprint(e.o.neg.Encryption))
+		}
+		if (e.enc == "REQUIRED" || e.integ == "REQUIRED") && !e.o.st.IsEncrypted() {
+			viol(e.role+":required-enc-plaintext", "success under encryption/integrity REQUIRED on a plaintext stream", "protected", "plaintext")
+		}
+	}
+	if r.leak != "" {
+		viol("traffic-in-clear", "application data sent after a handshake that installed a key is readable on the wire", "canary absent from the raw bytes", r.leak)
+	}
+	if r.sealChk != "-" && r.sealChk != "ok" {
+		viol("traffic-not-sealed", "traffic after the handshake is not AES-GCM protected under the session key as documented", "every frame opens under the session key (and the first one under no other key)", r.sealChk)
+	}
+}
+
 func runMatrix(c *Ctx) error {
-	c.Res.Rule = "two real cedar endpoints over an in-memory duplex pipe: the full 4^4 matrix of (client auth, server auth, client enc, server enc) levels x method-list shapes (equal, disjoint, overlapping in both orders, empty, containing the unimplemented PASSWORD, PASSWORD only) x cipher lists (common / none), the client's command rotating over a real command, command 0 and none (auth-only); after success a message is exchanged each way; outcome compared with the Lean model honestRun and with the property's decision table; exhaustive over the matrix for each shape; non-trivial = always (each cell distinct)"
+	c.Res.Rule = "two real cedar endpoints over an in-memory duplex pipe with a wire tap: the full 4^4 matrix of (client auth, server auth, client enc, server enc) levels x method-list shapes (equal, disjoint, overlapping in both orders, empty on either side, containing the unimplemented PASSWORD, PASSWORD only, both SCITOKENS and IDTOKENS, and four shapes where TWO methods can run: the first common one failing on the wire (FS through an address translator, TOKEN with a token signed by another key) or succeeding) x cipher lists (common / none) x integrity levels (OPTIONAL; REQUIRED on either side with and without a common cipher; NEVER), the client's command rotating over a real command, command 0 and none (auth-only); after success a canary message is exchanged each way; which method completed is read from the wire; outcome compared with the Lean model honestRun and with the property's decision table; exhaustive over the matrix for each shape; non-trivial = always (each cell distinct)"
+	defer quietStdout()()
+	mat, cleanup, err := hsPrepare(c)
+	if err != nil {
+		return err
+	}
+	defer cleanup()
+	fsBefore := stallFSDirs()
+	defer func() {
+		for d := range stallFSDirs() {
+			if !fsBefore[d] {
+				_ = os.Remove(d)
+			}
+		}
+	}()
 	var cases []Case
-	type shape struct {
-		name string
-		cm, sm []string
-		cc, scs []string
+	aes := []string{"AES"}
+	cb := []string{"CLAIMTOBE"}
+	shapes := []pairShape{
+		{name: "same", cm: cb, sm: cb, cc: aes, scs: aes, ok: cb},
+		{name: "pw-only", cm: []string{"PASSWORD"}, sm: []string{"PASSWORD"}, cc: aes, scs: aes, ok: cb},
+		{name: "disjoint", cm: cb, sm: []string{"PASSWORD"}, cc: aes, scs: aes, ok: cb},
+		{name: "pw-first", cm: []string{"CLAIMTOBE", "PASSWORD"}, sm: []string{"PASSWORD", "CLAIMTOBE"}, cc: aes, scs: aes, ok: cb},
+		{name: "no-cipher", cm: cb, sm: cb, cc: aes, scs: []string{"3DES"}, ok: cb},
 	}
-	shapes := []shape{
-		{"same", []string{"CLAIMTOBE"}, []string{"CLAIMTOBE"}, []string{"AES"}, []string{"AES"}},
-		{"pw-only", []string{"PASSWORD"}, []string{"PASSWORD"}, []string{"AES"}, []string{"AES"}},
-		{"disjoint", []string{"CLAIMTOBE"}, []string{"PASSWORD"}, []string{"AES"}, []string{"AES"}},
-	}
-	if c.Thorough() || true {
-		shapes = append(shapes,
-			shape{"pw-first", []string{"CLAIMTOBE", "PASSWORD"}, []string{"PASSWORD", "CLAIMTOBE"}, []string{"AES"}, []string{"AES"}},
-			shape{"no-cipher", []string{"CLAIMTOBE"}, []string{"CLAIMTOBE"}, []string{"AES"}, []string{"3DES"}},
-		)
+	two := twoMethodShapes(mat)
+	extra := []pairShape{
+		{name: "empty-server", cm: cb, sm: nil, cc: aes, scs: aes, ok: cb},
+		{name: "integ-req-client", cm: cb, sm: cb, cc: aes, scs: aes, ci: "REQUIRED", ok: cb},
+		{name: "integ-req-server-no-cipher", cm: cb, sm: cb, cc: aes, scs: []string{"3DES"}, si: "REQUIRED", ok: cb},
+		{name: "integ-never", cm: cb, sm: cb, cc: aes, scs: aes, ci: "NEVER", si: "NEVER", ok: cb},
+		{name: "sci-and-id", bound: 3 * time.Second, cm: []string{"SCITOKENS", "IDTOKENS"}, sm: []string{"IDTOKENS", "SCITOKENS"}, cc: aes, scs: aes, ok: []string{"IDTOKENS"}, ct: mat.cliToken(mat.tokenFile), st: mat.srvToken()},
 	}
 	if c.Thorough() {
+		shapes = append(shapes, two...)
+		shapes = append(shapes, extra...)
 		shapes = append(shapes,
-			shape{"empty-client", nil, []string{"CLAIMTOBE"}, []string{"AES"}, []string{"AES"}},
-			shape{"none-listed", []string{"NONE", "CLAIMTOBE"}, []string{"NONE"}, []string{"AES"}, []string{"AES"}},
-			shape{"order2", []string{"PASSWORD", "CLAIMTOBE"}, []string{"CLAIMTOBE", "PASSWORD"}, []string{"3DES", "AES"}, []string{"AES"}},
+			pairShape{name: "empty-client", cm: nil, sm: cb, cc: aes, scs: aes, ok: cb},
+			pairShape{name: "none-listed", cm: []string{"NONE", "CLAIMTOBE"}, sm: []string{"NONE"}, cc: aes, scs: aes, ok: cb},
+			pairShape{name: "order2", cm: []string{"PASSWORD", "CLAIMTOBE"}, sm: []string{"CLAIMTOBE", "PASSWORD"}, cc: []string{"3DES", "AES"}, scs: aes, ok: cb},
+			pairShape{name: "integ-req-server", cm: cb, sm: cb, cc: aes, scs: aes, si: "REQUIRED", ok: cb},
+			pairShape{name: "integ-req-client-no-cipher", cm: cb, sm: cb, cc: aes, scs: []string{"3DES"}, ci: "REQUIRED", ok: cb},
 		)
 	}
+	// quick tier: the added shapes run on a quarter of the matrix each (a different quarter per
+	// shape and seed), the five base shapes on all of it
+	sparse := map[string]bool{}
+	if !c.Thorough() {
+		for _, sh := range append(append([]pairShape{}, two...), extra...) {
+			shapes = append(shapes, sh)
+			sparse[sh.name] = true
+		}
+	}
 	cellNo := 0
-	for _, sh := range shapes {
+	for si, sh := range shapes {
 		for _, ca := range levels {
 			for _, sa := range levels {
 				for _, ce := range levels {
 					for _, se := range levels {
-						cc := clientCfg{auth: ca, enc: ce, integ: "OPTIONAL", methods: sh.cm, ciphers: sh.cc}
-						sc := serverCfg{auth: sa, enc: se, integ: "OPTIONAL", methods: sh.sm, ciphers: sh.scs}
+						cellNo++
+						if sparse[sh.name] && (cellNo+si+int(c.Seed))%4 != 0 {
+							continue
+						}
 						// the command dimension of the quantifier: a real command, command 0, and an
 						// auth-only handshake that carries none
-						cellNo++
-						cl, sv, denied, msgOK := runHonestPair(cc, sc, []int{60007, 0, security.NoCommand}[cellNo%3])
-						c.Count(fmt.Sprintf("command:%d", []int{60007, 0, security.NoCommand}[cellNo%3]))
-						op := fmt.Sprintf("honest cauth=%s cenc=%s cinteg=OPTIONAL cmethods=%s cciphers=%s sauth=%s senc=%s sinteg=OPTIONAL smethods=%s sciphers=%s ok=CLAIMTOBE user=%s",
-							ca, ce, joinOrDash(sh.cm), joinOrDash(sh.cc), sa, se, joinOrDash(sh.sm), joinOrDash(sh.scs), "~")
-						side := func(o honestObs) string {
-							if o.err != nil {
-								return "err x"
-							}
-							ran := "-"
-							if o.neg.Authentication {
-								ran = string(o.neg.NegotiatedAuth)
-							}
-							m := "-"
-							if o.neg.Authentication {
-								m = string(o.neg.NegotiatedAuth)
-							}
-							return fmt.Sprintf("ok auth=%s enc=%s method=%s keyed=%s ran=%s", b01(o.neg.Authentication), b01(o.neg.Encryption), m, b01(o.st.IsEncrypted()), ran)
-						}
-						real := fmt.Sprintf("client[%s] server[%s] denied=%s", side(cl), side(sv), b01(denied))
+						cmd := []int{60007, 0, security.NoCommand}[cellNo%3]
+						v := runPairCell(sh, ca, sa, ce, se, cmd)
+						c.Count(fmt.Sprintf("command:%d", cmd))
+						cl, sv, denied, msgOK, op, real := v.run.cl, v.run.sv, v.run.denied, v.run.msgOK, v.op, v.real
 						cases = append(cases, Case{Label: "honest " + sh.name, Ops: []string{op}, Real: []string{real}})
 						c.Distinct(op, true)
 						c.Count("shape:" + sh.name)
+						if len(v.run.wire.ranAny) > 1 {
+							c.Count("first-method-failed-on-the-wire")
+						}
 						// ---- property oracle C10: the decision table written from the property text ----
-						common := ""
+						common := "" // first method in the server's order that both list and that can actually run
 						for _, m := range sh.sm {
-							if contains(sh.cm, m) && m == "CLAIMTOBE" { // the only mutually USABLE method in these shapes
+							if contains(sh.cm, m) && contains(sh.ok, m) && m != "PASSWORD" && m != "NONE" {
 								common = m
 								break
 							}
@@ -955,6 +1459,10 @@ func runMatrix(c *Ctx) error {
 						wantAuth := req(ca, sa) || (!nev(ca, sa) && pref(ca, sa) && common != "")
 						encOn := req(ce, se) || (!nev(ce, se) && pref(ce, se) && cipher)
 						fail := (req(ca, sa) && nev(ca, sa)) || (req(ce, se) && nev(ce, se)) || (req(ca, sa) && common == "") || (req(ce, se) && !cipher)
+						ci, sig := sh.integ()
+						// integrity REQUIRED is not a row of the property's table: with no common cipher such a
+						// handshake cannot succeed; the table is then silent (compared with the model only)
+						integStuck := (ci == "REQUIRED" || sig == "REQUIRED") && !cipher
 						viol := func(key, what, exp, obs string) {
 							c.Violate(Violation{Property: "C10", Key: "C10:" + key, What: what, Ops: []string{op}, Expected: exp, Observed: obs})
 						}
@@ -962,20 +1470,33 @@ func runMatrix(c *Ctx) error {
 							if cl.err == nil || sv.err == nil {
 								viol("should-fail:"+sh.name, "handshake succeeded although one side requires what the other forbids / a required feature has no common method", "failure with explicit denial", real)
 							} else if !denied {
-								viol("bare-close:"+sh.name, "handshake failed without an explicit denial reaching the client", "DENIED response", fmt.Sprint(cl.err))
+								viol("bare-close:"+sh.name, "handshake failed without an explicit denial reaching the client (the server's last message on the wire is not an ad carrying a denial return code)", "DENIED response on the wire", "none")
+							}
+						} else if integStuck {
+							if cl.err == nil && sv.err == nil {
+								viol("integ-required-off:"+sh.name, "integrity REQUIRED, no common cipher, yet the handshake succeeded", "failure", real)
 							}
 						} else {
 							if cl.err != nil || sv.err != nil {
-								viol("should-succeed:"+sh.name, "handshake failed although the policy table says it succeeds", fmt.Sprintf("success (auth=%v, enc>=%v)", wantAuth, encOn), fmt.Sprintf("client err=%v / server err=%v", cl.err, sv.err))
+								viol("should-succeed:"+sh.name, "handshake failed although the policy table says it succeeds", fmt.Sprintf("success (auth=%v, enc>=%v)", wantAuth, encOn), fmt.Sprintf("client failed=%v / server failed=%v", cl.err != nil, sv.err != nil))
 							} else {
 								if cl.neg.Authentication != sv.neg.Authentication || cl.neg.Encryption != sv.neg.Encryption {
 									viol("disagree-flags:"+sh.name, "endpoints report different authentication/encryption outcomes", "equal", real)
 								}
+								if sv.neg.Authentication && cl.neg.Authentication && cl.neg.NegotiatedAuth != sv.neg.NegotiatedAuth {
+									viol("disagree-method:"+sh.name, "endpoints report different authentication methods", string(sv.neg.NegotiatedAuth), string(cl.neg.NegotiatedAuth))
+								}
+								if sv.neg.Authentication && cl.neg.Authentication && cl.neg.User != sv.neg.User {
+									viol("disagree-user:"+sh.name, "endpoints report different authenticated identities", "equal", "different")
+								}
 								if sv.neg.Authentication != wantAuth {
 									viol("auth-table:"+sh.name, "authentication ran/did not run contrary to the policy table", fmt.Sprint(wantAuth), fmt.Sprint(sv.neg.Authentication))
 								}
-								if req(ce, se) && !(cl.st.IsEncrypted() && sv.st.IsEncrypted()) {
-									viol("enc-required-off:"+sh.name, "encryption required by one side but the stream is not protected", "encrypted", real)
+								if v.run.wire.parsed && (len(v.run.wire.ranOK) > 0) != wantAuth {
+									viol("auth-table-wire:"+sh.name, "an authentication exchange completed / did not complete on the wire contrary to the policy table", fmt.Sprint(wantAuth), joinDash(v.run.wire.ranOK))
+								}
+								if (req(ce, se) || ci == "REQUIRED" || sig == "REQUIRED") && !(cl.st.IsEncrypted() && sv.st.IsEncrypted()) {
+									viol("enc-required-off:"+sh.name, "encryption/integrity required by one side but the stream is not protected", "encrypted", real)
 								}
 								if cl.neg.SessionId != sv.neg.SessionId {
 									viol("sid:"+sh.name, "session identifiers differ", sv.neg.SessionId, cl.neg.SessionId)
@@ -988,12 +1509,14 @@ func runMatrix(c *Ctx) error {
 								}
 							}
 						}
+						// reported outcome = what happened on the wire, on both ends (also a C10 matter: "both
+						// endpoints report the same authentication and encryption outcome")
+						reportedIsReal(c, "C10", "C10:"+sh.name+":", sh, ca, sa, ce, se, v)
 					}
 				}
 			}
 		}
 	}
-	sort.SliceStable(cases, func(i, j int) bool { return false })
 	for i, cs := range cases {
 		if i%211 == 0 {
 			c.Sample(map[string]any{"op": cs.Ops[0], "real": cs.Real[0]})
@@ -1005,6 +1528,12 @@ func runMatrix(c *Ctx) error {
 		s = strings.ReplaceAll(s, "err eof", "err x")
 		s = strings.ReplaceAll(s, "err malformed", "err x")
 		s = strings.ReplaceAll(s, "err authFail", "err x")
+		// a client that gives up WITHOUT a denial (at its own key set-up) closes the connection while the
+		// server may or may not still be writing its last message: the server's result is then a matter
+		// of scheduling, not of the protocol (the property oracle reads the server's result directly)
+		if strings.HasPrefix(s, "client[err x] server[") && strings.Contains(s, "] denied=0") {
+			s = "client[err x] server[?] denied=0" + s[strings.Index(s, "] denied=0")+len("] denied=0"):]
+		}
 		return s
 	}
 	return diffBatch(c, "hs", cases, norm)
